@@ -1,19 +1,223 @@
-"""Kani harnesses and bounded native contract drivers, run on a scratch copy of the real crates.
-(filled in stage by stage; see DESIGN.md 2.1)"""
+"""Native stages run on a scratch copy of the real crates (never on /repo itself):
+
+* bounded contract drivers (`drivers/*.rs`): a `#[cfg(test)] mod verif_driver_*` appended to the
+  real module, so private functions are reachable; each evaluates the same contracts the Verus
+  units state, on an enumerated bounded domain, under catch_unwind.  Labelled *bounded*.
+  They double as witness finders: when a Verus obligation fails, the driver of that function is
+  run to find a concrete failing input for the replay file.
+* the pipeline crate (`drivers/pipeline`): whole-pipeline replays (front end + resolver + compiler).
+* Kani harnesses (`kani/*.rs`): injected the same way under cfg(kani).
+
+Output protocol of drivers (stdout lines):
+  VERIF-WITNESS obligation=<unit>/<fn>#<kind> fn=<fn> input=<..> observed=<..> required=<..>
+  VERIF-CASES fn=<fn> n=<count>
+"""
+import glob
 import json
 import os
+import re
+import shutil
+import subprocess
+import time
+
+ROOT = os.path.dirname(os.path.dirname(os.path.abspath(__file__)))
+CACHE = os.path.join(ROOT, '.cache')
+WORK = os.path.join(CACHE, 'work', 'repo')
+
+
+def sync_repo(repo):
+    os.makedirs(os.path.dirname(WORK), exist_ok=True)
+    subprocess.run(['rsync', '-a', '--delete', '--exclude', 'target', '--exclude', '.git', repo.rstrip('/') + '/', WORK + '/'], check=True)
+
+
+def parse_header(path):
+    h = {}
+    for line in open(path):
+        m = re.match(r'//@\s*(\S+)\s+(.*)$', line)
+        if m:
+            h.setdefault(m.group(1), []).append(m.group(2).strip())
+        elif line.strip() and not line.startswith('//'):
+            break
+    return h
+
+
+def inject_drivers(driver_files):
+    """append each driver to the module file it names (in the scratch copy)"""
+    for d in driver_files:
+        h = parse_header(d)
+        target = os.path.join(WORK, h['append-to'][0])
+        if not os.path.exists(target):
+            raise FileNotFoundError(h['append-to'][0])
+        body = open(d).read()
+        with open(target, 'a') as f:
+            f.write('\n\n// ===== appended by /verif (scratch copy only): %s =====\n' % os.path.basename(d))
+            f.write(body)
+
+
+def cargo_env(target):
+    env = dict(os.environ)
+    env['CARGO_TARGET_DIR'] = os.path.join(CACHE, target)
+    env['CARGO_NET_OFFLINE'] = 'true'
+    env.pop('RUSTFLAGS', None)
+    return env
+
+
+def parse_protocol(out):
+    """protocol tokens may share a line with the libtest `test name ... ` prefix (--nocapture)"""
+    wit = []
+    cases = {}
+    for line in out.split('\n'):
+        i = line.find('VERIF-WITNESS')
+        if i >= 0:
+            l = line[i:].strip()
+            m = re.match(r'VERIF-WITNESS obligation=(\S+) fn=(\S+) input=(.*?) observed=(.*?) required=(.*)$', l)
+            if m:
+                wit.append({'obligation': m.group(1), 'fn': m.group(2), 'input': m.group(3), 'observed': m.group(4), 'required': m.group(5)})
+            else:
+                m = re.match(r'VERIF-WITNESS obligation=(\S+) input=(.*?) observed=(.*?) required=(.*)$', l)
+                if m:
+                    wit.append({'obligation': m.group(1), 'fn': m.group(1).split('/')[-1].split('#')[0], 'input': m.group(2), 'observed': m.group(3), 'required': m.group(4)})
+            continue
+        for m in re.finditer(r'VERIF-CASES fn=(\S+) n=(\d+)', line):
+            cases[m.group(1)] = cases.get(m.group(1), 0) + int(m.group(2))
+    return wit, cases
+
+
+def run_driver_group(group, repo, seed):
+    """group: dict(name, crate, drivers=[files], filter, kind='test'|'bin', bin=...)"""
+    t0 = time.time()
+    env = cargo_env('target-drivers')
+    env['VERIF_SEED'] = str(seed)
+    if group.get('kind') == 'bin':
+        pdir = os.path.join(ROOT, 'drivers', 'pipeline')
+        shutil.copyfile(os.path.join(repo, 'Cargo.lock'), os.path.join(pdir, 'Cargo.lock'))
+        cmd = ['cargo', 'run', '--offline', '--release', '--quiet', '--bin', group['bin']]
+        env['CARGO_TARGET_DIR'] = os.path.join(CACHE, 'target-pipeline')
+        p = subprocess.run(cmd, cwd=pdir, env=env, capture_output=True, text=True, timeout=3600)
+    else:
+        cmd = ['cargo', 'test', '--offline', '--quiet', '-p', group['crate'], '--lib', group['filter'], '--', '--nocapture', '--test-threads', '8']
+        p = subprocess.run(cmd, cwd=WORK, env=env, capture_output=True, text=True, timeout=3600)
+    out = p.stdout + '\n' + p.stderr
+    wit, cases = parse_protocol(out)
+    ok = p.returncode == 0
+    return {'name': group['name'], 'cmd': ' '.join(cmd), 'ok': ok, 'witnesses': wit, 'cases': cases, 'wall_s': round(time.time() - t0, 1),
+            'tail': '' if ok else out[-3000:]}
+
+
+def load_groups():
+    with open(os.path.join(ROOT, 'drivers', 'groups.json')) as f:
+        return json.load(f)
 
 
 def run_stages(prop, cfg, tier, repo, seed, known):
-    return {'violations': [], 'known_hits': [], 'tool_limits': [], 'obligations': [], 'assumptions': [], 'cmds': []}
+    rep = {'violations': [], 'known_hits': [], 'tool_limits': [], 'obligations': [], 'assumptions': [], 'cmds': [], 'bounded': [], 'kani': []}
+    if tier != 'thorough':
+        return rep
+    groups = [g for g in load_groups() if prop in g.get('props', [])]
+    if not groups and not cfg.get('kani'):
+        return rep
+    sync_repo(repo)
+    files = []
+    for g in groups:
+        files += [os.path.join(ROOT, 'drivers', d) for d in g.get('drivers', [])]
+    try:
+        inject_drivers(sorted(set(files)))
+    except FileNotFoundError as e:
+        rep['tool_limits'].append('driver target missing: %s' % e)
+        return rep
+    for g in groups:
+        r = run_driver_group(g, repo, seed)
+        rep['cmds'].append(r['cmd'])
+        rep['bounded'].append({k: r[k] for k in ('name', 'ok', 'cases', 'wall_s')})
+        if not r['ok'] and not r['witnesses']:
+            rep['tool_limits'].append('driver group %s failed to build/run: %s' % (g['name'], r['tail'][-600:]))
+            continue
+        # one bounded obligation per (fn) covered by this property
+        fns = g.get('fns', {})
+        by_fn = {}
+        for w in r['witnesses']:
+            by_fn.setdefault(w['fn'], []).append(w)
+        for fn, meta in fns.items():
+            if prop not in meta.get('props', g.get('props', [])):
+                continue
+            ws = [w for w in by_fn.get(fn, []) if obligation_prop_ok(w, prop, meta)]
+            n = r['cases'].get(fn, 0)
+            ob = {'id': 'bounded/%s/%s' % (g['name'], fn), 'class': 'bounded', 'backend': 'native bounded contract driver',
+                  'bound': meta.get('bound', g.get('bound', '')), 'cases': n, 'status': 'discharged' if not ws and n > 0 else 'failed'}
+            rep['obligations'].append(ob)
+            if n == 0 and not ws:
+                rep['tool_limits'].append('bounded driver %s/%s evaluated zero cases' % (g['name'], fn))
+            for w in ws[:3]:
+                oid = w['obligation']
+                rec = {'obligation': oid, 'at': w['input'], 'message': 'bounded contract check failed: observed %s, required %s' % (w['observed'], w['required']),
+                       'repo_loc': meta.get('where'), 'clause': w['required'], 'rendered': '', 'witness': w, 'native': True, 'unit': g['name'], 'function': fn}
+                kf = next((k for k in known if k['obligation'] == oid and (k['at'] == '*' or k['at'] == w['input'])), None)
+                if kf:
+                    rep['known_hits'].append((kf, rec))
+                else:
+                    rep['violations'].append(rec)
+    return rep
+
+
+def obligation_prop_ok(w, prop, meta):
+    tag = meta.get('kinds')
+    if not tag:
+        return True
+    kind = w['obligation'].split('#')[-1]
+    allowed = tag.get(prop)
+    return allowed is None or kind in allowed
 
 
 def find_witness(prop, cfg, violation, repo):
+    """A Verus obligation failed: run the bounded driver that covers the same function (if any)
+    and return the first concrete failing input it finds."""
+    fn = (violation.get('function') or '').split('::')[-1]
+    try:
+        groups = [g for g in load_groups() if fn in g.get('fns', {})]
+    except Exception:
+        return None
+    if not groups:
+        return None
+    try:
+        sync_repo(repo)
+        files = sorted(set(os.path.join(ROOT, 'drivers', d) for g in groups for d in g.get('drivers', [])))
+        inject_drivers(files)
+        for g in groups:
+            r = run_driver_group(g, repo, 0)
+            for w in r['witnesses']:
+                if w['fn'] == fn:
+                    w['found_by'] = r['cmd']
+                    return w
+    except Exception as e:  # witness search is best effort
+        return None
     return None
 
 
 def replay(prop, path, repo):
     with open(path) as f:
         r = json.load(f)
-    print(json.dumps(r, indent=1)[:4000])
-    return 0
+    print('replay of', r.get('failed_obligation'))
+    print(' statement :', r.get('statement'))
+    print(' location  :', r.get('repo_location'))
+    print(' verifier  :', r.get('verifier_message'))
+    w = r.get('witness')
+    if not w:
+        print(' no concrete input was found; verifier output follows')
+        print(r.get('verifier_output'))
+        return 1
+    print(' recorded witness:', json.dumps(w))
+    # re-run the driver that found it against the current tree
+    fn = w.get('fn')
+    groups = [g for g in load_groups() if fn in g.get('fns', {})]
+    sync_repo(repo)
+    inject_drivers(sorted(set(os.path.join(ROOT, 'drivers', d) for g in groups for d in g.get('drivers', []))))
+    again = False
+    for g in groups:
+        res = run_driver_group(g, repo, 0)
+        for x in res['witnesses']:
+            if x['fn'] == fn and x['input'] == w['input']:
+                print(' REPRODUCED on the current tree:', json.dumps(x))
+                again = True
+    if not again:
+        print(' not reproduced on the current tree')
+    return 1 if again else 0
